@@ -18,7 +18,7 @@ BUILTIN_CALLS = {'len', 'int', 'list', 'tuple', 'set', 'sorted', 'any', 'all', '
 MUTATORS = {'add', 'append', 'update'}
 # methods that change an *external* object held in a local: `bits.invert(0)` becomes `bits = <.invert!>(bits, 0)`, the
 # external returning the object after the change
-EXT_MUTATORS = {'invert'}
+EXT_MUTATORS = {'invert', 'put'}    # x.put(v): the queue x as a value, `x = <.put!>(x, v)`
 MODULES = ('re', 'collections', 'copy', 'os', 'json', 'itertools', 'logging', 'exceptions', 'isodate', 'decimal', 'datetime')
 BINOPS = {ast.Add: '+', ast.Sub: '-', ast.Mult: '*', ast.Div: '/', ast.Mod: '%'}
 CMPOPS = {ast.Eq: '==', ast.NotEq: '!=', ast.Lt: '<', ast.LtE: '<=', ast.Gt: '>', ast.GtE: '>=',
@@ -88,6 +88,9 @@ FUNCTIONS = [
      ['mode', 'storage']),
     ('sql_update_keys', 'dataflows.processors.dumpers.to_sql', ['SQLDumper', 'process_resource', '@if:0', '@else', '@if:2'],
      ['mode', 'converted_resource', 'schema_descriptor', 'update_keys']),
+    # parallelize: one turn of the fetcher's loop (the queues as values)
+    ('par_fetcher_body', 'dataflows.processors.parallelize', ['fetcher', '@while:0', '@body'],
+     ['q_out', 'q_internal', 'expected_nones']),
     # concatenate: the source-field -> target-field mapping
     ('concat_mapping_loop', 'dataflows.processors.concatenate', ['concatenate', 'func', '@for:0'], ['fields', 'field_mapping']),
     ('flow_chain_body', 'dataflows.base.flow', ['Flow', '_chain', '@for:0', '@body']),
@@ -146,6 +149,8 @@ class Tr:
 
     def call(self, f, items):
         ctor = BCTOR.get(f)
+        if f == '.get' and len(items) == 1:
+            ctor = None         # x.get(): a queue's get, not dict.get(key)
         head = '.' + ctor if ctor else '(.ext %s)' % lean_str(f)
         return '(.call %s %s)' % (head, self.args(items))
 
@@ -503,6 +508,13 @@ def locate(tree, path):
             if not ifs or not (-len(ifs) <= k < len(ifs)):
                 return None
             node = ifs[k]
+            continue
+        if name.startswith('@while:'):
+            whiles = [st for st in getattr(node, 'body', []) if isinstance(st, ast.While)]
+            k = int(name[7:])
+            if not whiles or not (-len(whiles) <= k < len(whiles)):
+                return None
+            node = whiles[k]
             continue
         if name.startswith('@for:'):
             fors = [st for st in getattr(node, 'body', []) if isinstance(st, ast.For)]
